@@ -371,6 +371,7 @@ def run(ctx, out, tier):
     else:
         out.inst("C19.detect", 0, 4)
     shared.sh_flags(ctx, out, "check-ai", "C19.flags")
+    asyncval.check_index_alignment(ctx, out, "C19.index", NAME)
     return meta()
 
 
